@@ -3592,6 +3592,35 @@ Print Assumptions loopir_rc2poly_tie.
 THEOREMS['rc2poly'] = dict(proof=RC2POLY_PROOF, theorems=RC2POLY_THEOREMS, block=RC2POLY_BLOCK)
 
 
+# ---------------------------------------------------------------- arma2psd: translation + theorem (T7)
+ARMA2PSD_PROOF = 'Proofs/LoopIRArma2psd.v'
+ARMA2PSD_THEOREMS = ['loopir_arma2psd_model', 'loopir_arma2psd_tie']
+ARMA2PSD_BLOCK = """
+(* The program of arma2psd regenerated on this run - two loops filling den / num, two numpy.fft.fft calls (the DFT specification of Theory/Dft.v over the
+   hidden twiddle parameter), abs()**2, the three formulas, numpy.real, tools.twosided_2_centerdc embedded, psd /= max(psd) - is, term for term, the one
+   Proofs/LoopIRArma2psd.v is about: its theorems apply. *)
+Require Import Spectrum.Theory.Ops Spectrum.Theory.Vec Spectrum.Theory.Dft Spectrum.Model.Arma2psd Spectrum.Model.LoopIRTie Spectrum.Model.LoopIRVec
+               Spectrum.Proofs.LoopIRArma2psd.
+Lemma prog_arma2psd_is_ref : prog_arma2psd = prog_arma2psd_ref.
+Proof. reflexivity. Qed.
+(* for EVERY twiddle family, A / B absent or arrays of any length and dtype tag, rho / T given or omitted, every NFFT (a natural number), sides omitted
+   or ANY string, norm omitted / False / True: the run returns / raises exactly what Model.Arma2psd.arma2psd says (arma2psd_spec of Model/LoopIRVec.v) *)
+Theorem loopir_arma2psd_model :
+  forall (F : Type) (OF : Ops F) (L : Laws OF) (feq : F -> F -> bool) (stop : Z -> F -> F -> bool) (tw : nat -> Z -> F)
+         (A B : option (bool * list F)) (rho T : option F) (nfft : nat) (sides : option string) (norm : option bool),
+  run feq stop prog_arma2psd (arma2psd_args tw A B rho T nfft sides norm) = arma2psd_spec tw A B rho T nfft sides norm.
+Proof. intros. rewrite prog_arma2psd_is_ref. apply arma2psd_ir_run. Qed.
+Theorem loopir_arma2psd_tie :
+  forall (F : Type) (OF : Ops F) (L : Laws OF) (feq : F -> F -> bool), (forall a, feq a a = true) ->
+  forall (tw : nat -> Z -> F) (A B : option (bool * list F)) (rho T : option F) (nfft : nat) (sides : option string) (norm : option bool),
+  tie_arma2psd feq tw prog_arma2psd A B rho T nfft sides norm = true.
+Proof. intros. rewrite prog_arma2psd_is_ref. apply arma2psd_ir_tie; assumption. Qed.
+Print Assumptions loopir_arma2psd_model.
+Print Assumptions loopir_arma2psd_tie.
+"""
+THEOREMS['arma2psd'] = dict(proof=ARMA2PSD_PROOF, theorems=ARMA2PSD_THEOREMS, block=ARMA2PSD_BLOCK)
+
+
 def reference_text_in(proof, name):
     """the program text of <name> that <proof> was proved about (between its BEGIN/END GENERATED <name> markers)"""
     t = open(os.path.join(vlib.COQ, proof)).read()
